@@ -90,6 +90,19 @@ def k14_merge(ctx) -> None:
         return
     # the roots come from find
     roots = PT.find_all(f, f"_M_roots = [self[{a}], self[{b}]]") or PT.find_all(f, f"_M_roots = (self[{a}], self[{b}])")
+    if not roots:
+        # the same pair through locals: roots = (root, other_root) with root = self[a], other_root = self[b]
+        for st0 in walk_local(f):
+            t0, v0 = PT.assign_value(st0)
+            if isinstance(t0, ast.Name) and isinstance(v0, (ast.List, ast.Tuple)) and len(v0.elts) == 2 \
+                    and sorted(norm(D.expanded(f, e)) for e in v0.elts) == sorted([f"self[{a}]", f"self[{b}]"]):
+                roots = [(st0, {"_M_roots": t0.id})]
+    if not roots:
+        # ... or the pair written out where it is used (the canonical form reads a pure local through)
+        for l0 in walk_local(f):
+            if isinstance(l0, ast.For) and isinstance(l0.iter, (ast.List, ast.Tuple)) and len(l0.iter.elts) == 2 \
+                    and sorted(norm(D.expanded(f, e)) for e in l0.iter.elts) == sorted([f"self[{a}]", f"self[{b}]"]):
+                roots = [(l0, {"_M_roots": norm(l0.iter)})]
     if roots:
         ctx.ok("K14", "the two sets are merged at their roots (self[a], self[b])")
         rn = roots[0][1]["_M_roots"]
